@@ -910,9 +910,11 @@ class Exec:
                 r = z3.ToReal(z3.BV2Int(a, is_signed=(op == "sitofp")))
                 lim = bv(w, 1 << m)
                 inexact = z3.Not(z3.And(a <= lim, a >= -lim))
-            # exact when |a| <= 2^mant; otherwise the abstraction does not apply: recorded as a UB-like side condition
+            # exact when |a| <= 2^mant; otherwise correctly rounded: one relative error, zero in the exact range
             if w > m:
-                self.ub("int-to-fp-inexact (outside the real abstraction)", ins, inexact)
+                d = self.fresh("d", z3.RealSort())
+                self.res.assumes.append(z3.And(d >= -eps[kind], d <= eps[kind], z3.Implies(z3.Not(inexact), d == 0)))
+                r = r * (1 + d)
             env[ins.dest] = RealFp(r, kind)
         elif op in ("fadd", "fsub", "fmul", "fdiv"):
             a = self.operand(ins.args[0], env)
@@ -946,6 +948,9 @@ class Exec:
         elif op in ("fpext",):
             a = self.operand(ins.args[0], env)
             env[ins.dest] = RealFp(a.r, "double")
+        elif op == "fptrunc":
+            a = self.operand(ins.args[0], env)
+            env[ins.dest] = rnd(a.r, "float")
         else:
             raise Unsupported("fp op %s in real mode" % op)
 
@@ -1392,7 +1397,7 @@ class IntExec(Exec):
                 a = a[i]
             env[ins.dest] = a
             return
-        if op in ("fadd", "fsub", "fmul", "fdiv", "fneg", "fcmp", "sitofp", "uitofp", "fptosi", "fpext"):
+        if op in ("fadd", "fsub", "fmul", "fdiv", "fneg", "fcmp", "sitofp", "uitofp", "fptosi", "fpext", "fptrunc"):
             if o.fp_mode != "real":
                 raise Unsupported("floating point in INT mode needs fp_mode='real'")
             self.fpstep_real(ins, env)
